@@ -112,6 +112,7 @@ pub fn run_bytes(data: &[u8]) {
         digest: false,
         strict_loopback: false,
         shallow_clone: s.layout_seed & 1 == 1,
+        clone_panics: 0,
     };
     let r = std::panic::catch_unwind(std::panic::AssertUnwindSafe(|| crate::interp::run_script_body(&s, cfg)));
     if let Err(e) = r {
